@@ -26,6 +26,12 @@ Definition at_ (i : nat) (l : bytes) : N := nth i l 0.
 Definition rd32_at (i : nat) (l : bytes) : N :=
   rd32 (at_ i l) (at_ (i + 1) l) (at_ (i + 2) l) (at_ (i + 3) l).
 
+Lemma at_app_l i (b d : bytes) : (i < length b)%nat -> at_ i (b ++ d) = at_ i b.
+Proof. intro H. unfold at_. apply app_nth1; assumption. Qed.
+
+Lemma rd32_at_app_l i (b d : bytes) : (i + 3 < length b)%nat -> rd32_at i (b ++ d) = rd32_at i b.
+Proof. intro H. unfold rd32_at. rewrite !at_app_l by lia. reflexivity. Qed.
+
 (* ---------------------------------------------------------------------------------------------- host messages *)
 Inductive hostmsg :=
 | HInit (app mq : N)
@@ -128,3 +134,135 @@ Qed.
 
 Lemma deser_some_nonempty raw m : deser raw = Some m -> raw <> [].
 Proof. destruct raw; simpl; intros H; congruence. Qed.
+
+(* -------------------------------------------------------------------------------------------- return messages *)
+Inductive retmsg :=
+| RDone (id : N)
+| RErr (c : N)
+| RReg (reg v : N)
+| RArr (addr : N) (vals : list N).
+
+(* one OptionalInt entry as ReturnArrayMessage.__bytes__ writes it for an integer value *)
+Definition enc_val (v : N) : bytes := [1; 0; 0; 0] ++ le32 v.
+
+Definition enc_ret (m : retmsg) : bytes :=
+  match m with
+  | RDone id => [0; 0; 0; 0] ++ le32 id
+  | RErr c => [1; c]
+  | RReg r v => [3; r; 0; 0] ++ le32 v
+  | RArr a vs => [2] ++ le32 a ++ le32 (N.of_nat (length vs)) ++ flat_map enc_val vs
+  end.
+
+(* the `values` of a deserialised array: the type byte and the padding of every entry are ignored *)
+Fixpoint rd_vals (n : nat) (body : bytes) : list N :=
+  match n with
+  | O => []
+  | S k => rd32_at 4 body :: rd_vals k (skipn 8 body)
+  end.
+
+(* ReturnArrayMessage.deserialize_from on raw[1:] *)
+Definition parse_arr (rest : bytes) : option retmsg :=
+  if (8 <=? length rest)%nat then
+    let n := rd32_at 4 rest in
+    if 2147483648 <=? n then None                          (* negative c_int32: "Array length must be >= 0" *)
+    else if blen (skipn 8 rest) <? 8 * n then None          (* "Buffer size too small" *)
+    else Some (RArr (rd32_at 0 rest) (rd_vals (N.to_nat n) (skipn 8 rest)))
+  else None.
+
+(* deserialize_return_msg; None = ValueError (which _handle_reply takes for "incomplete") *)
+Definition parse_ret (raw : bytes) : option retmsg :=
+  match raw with
+  | [] => None
+  | t :: rest =>
+      if t =? 0 then
+        if (8 <=? length raw)%nat then Some (RDone (rd32_at 4 raw)) else None
+      else if t =? 1 then
+        if (2 <=? length raw)%nat then Some (RErr (at_ 1 raw)) else None
+      else if t =? 2 then parse_arr rest
+      else if t =? 3 then
+        if (8 <=? length raw)%nat then Some (RReg (at_ 1 raw) (rd32_at 4 raw)) else None
+      else None
+  end.
+
+(* len(ret_msg) = len(bytes(ret_msg)) of the re-serialised object: what _handle_reply cuts off the buffer *)
+Definition ret_len (m : retmsg) : nat :=
+  match m with
+  | RDone _ => 8 | RErr _ => 2 | RReg _ _ => 8 | RArr _ vs => 9 + 8 * length vs
+  end%nat.
+
+Definition wf_ret (m : retmsg) : Prop :=
+  match m with
+  | RDone id => u32_ok id
+  | RErr c => byte_ok c
+  | RReg r v => byte_ok r /\ u32_ok v
+  | RArr a vs => u32_ok a /\ Forall u32_ok vs /\ N.of_nat (length vs) < 2147483648
+  end.
+
+Fixpoint nlist_eqb (a b : list N) : bool :=
+  match a, b with
+  | [], [] => true
+  | x :: a', y :: b' => (x =? y) && nlist_eqb a' b'
+  | _, _ => false
+  end.
+
+Definition retmsg_eqb (a b : retmsg) : bool :=
+  match a, b with
+  | RDone x, RDone y => x =? y
+  | RErr x, RErr y => x =? y
+  | RReg r1 v1, RReg r2 v2 => (r1 =? r2) && (v1 =? v2)
+  | RArr a1 v1, RArr a2 v2 => (a1 =? a2) && nlist_eqb v1 v2
+  | _, _ => false
+  end.
+
+Lemma ret_len_enc m : length (enc_ret m) = ret_len m.
+Proof.
+  destruct m as [id|c|r v|a vs]; simpl; try reflexivity.
+  f_equal. f_equal. f_equal. f_equal. f_equal. f_equal. f_equal. f_equal. f_equal.
+  induction vs as [|x vs IH]; simpl; [reflexivity|]. rewrite IH. lia.
+Qed.
+
+Lemma flat_enc_val_length vs : length (flat_map enc_val vs) = (8 * length vs)%nat.
+Proof. induction vs as [|x vs IH]; simpl; [reflexivity|]. rewrite IH. lia. Qed.
+
+Lemma rd_vals_enc vs tail : Forall u32_ok vs -> rd_vals (length vs) (flat_map enc_val vs ++ tail) = vs.
+Proof.
+  induction 1 as [|x vs Hx Hvs IH]; [reflexivity|].
+  cbn [length rd_vals flat_map]. f_equal.
+  - unfold enc_val. rewrite <- !app_assoc.
+    apply (rd32_at_le32 [1;0;0;0] x (flat_map enc_val vs ++ tail) 4 Hx eq_refl).
+  - simpl. exact IH.
+Qed.
+
+Lemma parse_arr_enc a vs tail : u32_ok a /\ Forall u32_ok vs /\ N.of_nat (length vs) < 2147483648 ->
+  parse_arr ((le32 a ++ le32 (N.of_nat (length vs)) ++ flat_map enc_val vs) ++ tail) = Some (RArr a vs).
+Proof.
+  intros (Ha & Hvs & Hn).
+  assert (Hn' : u32_ok (N.of_nat (length vs))) by (unfold u32_ok; lia).
+  rewrite <- !app_assoc.
+  set (body := flat_map enc_val vs ++ tail).
+  unfold parse_arr.
+  assert (EL : (8 <=? length (le32 a ++ le32 (N.of_nat (length vs)) ++ body))%nat = true).
+  { apply Nat.leb_le. rewrite !app_length, !le32_length. lia. }
+  rewrite EL.
+  rewrite (rd32_at_le32 (le32 a) (N.of_nat (length vs)) body 4 Hn' eq_refl).
+  pose proof (rd32_at_le32 [] a (le32 (N.of_nat (length vs)) ++ body) 0 Ha eq_refl) as E0.
+  change ([] ++ le32 a ++ le32 (N.of_nat (length vs)) ++ body)
+    with (le32 a ++ le32 (N.of_nat (length vs)) ++ body) in E0.
+  rewrite E0.
+  assert (Es : skipn 8 (le32 a ++ le32 (N.of_nat (length vs)) ++ body) = body) by reflexivity.
+  rewrite Es.
+  destruct (N.leb_spec 2147483648 (N.of_nat (length vs))) as [Hc|Hc]; [lia|].
+  destruct (N.ltb_spec (blen body) (8 * N.of_nat (length vs))) as [Hc2|Hc2].
+  { unfold body in Hc2. rewrite blen_app in Hc2. unfold blen in Hc2. rewrite flat_enc_val_length in Hc2. lia. }
+  rewrite Nat2N.id. unfold body. rewrite (rd_vals_enc vs tail Hvs). reflexivity.
+Qed.
+
+Lemma parse_enc_ret m tail : wf_ret m -> parse_ret (enc_ret m ++ tail) = Some m.
+Proof.
+  destruct m as [id|c|r v|a vs]; simpl; intro H.
+  - f_equal. f_equal. apply (rd32_at_le32 [0;0;0;0] id tail 4 H eq_refl).
+  - reflexivity.
+  - destruct H as [Hr Hv]. f_equal. f_equal.
+    apply (rd32_at_le32 [3;r;0;0] v tail 4 Hv eq_refl).
+  - apply parse_arr_enc; assumption.
+Qed.
